@@ -61,6 +61,8 @@ def Event.values (e : Event) : Bool := e.oldRow.isSome || e.newRow.isSome
 structure Cfg where
   idsOnly : Bool
   tables : Option (List String)   -- `none` = no filter; else the tables the regex matches
+  room : Nat := 1000000           -- free slots of the output channel while the request runs (nobody reads)
+  colsFail : List String := []    -- tables for which `ColumnNames` fails at commit time
 deriving Repr
 
 /-- the table filter of `convertFn` (`tblRe.MatchString`, cached) -/
@@ -102,6 +104,7 @@ deriving Repr, DecidableEq
 structure St where
   pending : List Event := []
   groups : List (List Event) := []   -- delivered, oldest first
+  dropped : Nat := 0                 -- groups dropped because the channel was full (cdcDroppedEvents)
 deriving Repr, DecidableEq
 
 def preupdate (c : Cfg) (st : St) (ch : Change) : St :=
@@ -111,9 +114,18 @@ def preupdate (c : Cfg) (st : St) (ch : Change) : St :=
 
 def preupdates (c : Cfg) (st : St) (chs : List Change) : St := chs.foldl (preupdate c) st
 
-/-- `CommitHook` -/
-def commit (st : St) : St :=
-  if st.pending.isEmpty then st else { pending := [], groups := st.groups ++ [st.pending] }
+/-- the column-name loop of `CommitHook`: an event of a table whose `ColumnNames` fails carries an error -/
+def markCols (c : Cfg) (ev : Event) : Event :=
+  if c.colsFail.contains ev.table then { ev with error := true } else ev
+
+/-- `CommitHook`: nothing pending → nothing; otherwise the group is handed to the channel if there is
+room (`select … default`), else DROPPED; either way `pending` starts afresh and the hook returns true
+(the commit itself is never affected) -/
+def commit (c : Cfg) (st : St) : St :=
+  if st.pending.isEmpty then st
+  else if st.groups.length < c.room then
+    { st with pending := [], groups := st.groups ++ [st.pending.map (markCols c)] }
+  else { st with pending := [], dropped := st.dropped + 1 }
 
 /-- auto-commit mode: every statement is its own transaction; a commit happens only when a
 statement that changed something succeeds -/
@@ -121,7 +133,7 @@ def runAuto (c : Cfg) : St → List Stmt → St
   | st, [] => st
   | st, s :: rest =>
     let st1 := preupdates c st s.touched
-    if s.ok then runAuto c (if s.writes then commit st1 else st1) rest
+    if s.ok then runAuto c (if s.writes then commit c st1 else st1) rest
     else runAuto c st1 rest
 
 /-- inside BEGIN … COMMIT: the first failure rolls everything back and stops the request (C13);
@@ -138,18 +150,18 @@ def request (c : Cfg) (tx : Bool) (stmts : List Stmt) : St :=
   let st0 : St := {}
   if tx then
     let (st1, ok) := runTx c st0 stmts
-    if ok && stmts.any (fun s => s.writes) then commit st1 else st1
+    if ok && stmts.any (fun s => s.writes) then commit c st1 else st1
   else runAuto c st0 stmts
 
 /-! ### line protocol
-`cfg <idsOnly 0|1> <*|table,table|->` → `ok`   (`*` no filter, `-` filter matching nothing)
+`cfg <idsOnly 0|1> <*|table,table|-> [room]` → `ok`   (`*` no filter, `-` filter matching nothing; room = free channel slots)
 `req <tx 0|1> <stmt;stmt;…|->` → `<group|group|…|-> <pending count>`
 stmt: `ok:<changes>` | `fail:<changes>` | `read:` (no write transaction); changes `.`-separated
 `<table>#<id>#<i|u|d>` or empty. event: `<table>#<id>#<i|u|d>` with suffix `v` when values are
 attached; events `,`-separated. -/
 
 structure DState where
-  cfg : Cfg := ⟨false, none⟩
+  cfg : Cfg := { idsOnly := false, tables := none }
 
 def parseOp (s : String) : Option Op :=
   if s == "i" then some .insert else if s == "u" then some .update else if s == "d" then some .delete else none
@@ -178,7 +190,7 @@ def evStr (e : Event) : String :=
 
 def outStr (st : St) : String :=
   (if st.groups.isEmpty then "-" else "|".intercalate (st.groups.map fun g => ",".intercalate (g.map evStr))) ++
-  " " ++ toString st.pending.length
+  " " ++ toString st.pending.length ++ (if st.dropped == 0 then "" else " dropped:" ++ toString st.dropped)
 
 def step (d : DState) (line : String) : DState × String :=
   match words line with
@@ -186,8 +198,14 @@ def step (d : DState) (line : String) : DState × String :=
     match (if i == "1" then some true else if i == "0" then some false else none) with
     | some i =>
       let tables := if ts == "*" then none else if ts == "-" then some [] else some (ts.splitOn ",")
-      ({ cfg := ⟨i, tables⟩ }, "ok")
+      ({ cfg := { idsOnly := i, tables := tables } }, "ok")
     | none => (d, "bad-op")
+  | ["cfg", i, ts, room] =>
+    match (if i == "1" then some true else if i == "0" then some false else none), room.toNat? with
+    | some i, some room =>
+      let tables := if ts == "*" then none else if ts == "-" then some [] else some (ts.splitOn ",")
+      ({ cfg := { idsOnly := i, tables := tables, room := room } }, "ok")
+    | _, _ => (d, "bad-op")
   | ["req", tx, ss] =>
     match (if tx == "1" then some true else if tx == "0" then some false else none),
           (if ss == "-" then some [] else (ss.splitOn ";").mapM parseStmt) with
